@@ -1,0 +1,49 @@
+//go:build verif
+
+// Contracts for the verifier in /verif (comment-only file; compiled only with -tags verif).
+
+package tls
+
+// C24: the marshaled body is the concatenation, in list order, of (varint id, varint length, value).
+// A transport parameter is an interface value; its id and value are abstracted by uninterpreted
+// functions of the object (tpid, tpvlen, tpvbyte). The interface contracts below are ASSUMED of every
+// implementer (each built-in implementer's ID()/Value() is verified separately in verif_contracts_leaf.go;
+// their conformance to these two contracts is by inspection, not machine-checked): ID() and Value() are
+// stable per object and change nothing the caller can see except the parameter's own cached state.
+//@ uf tpid(Int) Int
+//@ uf tpvlen(Int) Int
+//@ uf tpvbyte(Int, Int) Int
+//@ uf tppos(Int) Int
+
+//@ trusted interface TransportParameter.ID
+//@   modifies ghost(tpstate, self)
+//@   ensures ret == tpid(val(self))
+
+//@ trusted interface TransportParameter.Value
+//@   modifies ghost(tpstate, self)
+//@   ensures len(ret) == tpvlen(val(self)) && tpvlen(val(self)) >= 0
+//@   ensures forall j in 0..len(ret): ret[j] == tpvbyte(val(self), j)
+
+//@ spec tphdr(p) = vlen(tpid(val(p))) + vlen(tpvlen(val(p)))
+//@ func TransportParameters.Marshal
+//@   property C24
+//@   let n = len(tps)
+//@   requires nonnil: forall j in 0..n: tps[j] != nil
+//@   requires fits: forall j in 0..n: 0 <= tpid(val(tps[j])) && tpid(val(tps[j])) <= 4611686018427387903 && tpvlen(val(tps[j])) <= 4611686018427387903
+//@   requires walk: tppos(0) == 0 && forall j in 0..n: tppos(j+1) == tppos(j) + tphdr(tps[j]) + tpvlen(val(tps[j]))
+//@   note walk: tppos is an arbitrary function satisfying the recurrence of the entry offsets, so the clauses below hold for THE offsets of the concatenation (pattern documented in /verif/CONTRACTS.md)
+//@   note fits: ids or lengths above 2^62-1 make quicvarint.Append panic (refused, not truncated): outside this contract
+//@   ensures total: len(ret) == tppos(n)
+//@   ensures idtag: forall j in 0..n: ret[tppos(j)] / 64 == tagbits(vlen(tpid(val(tps[j]))))
+//@   ensures id1: forall j in 0..n: vlen(tpid(val(tps[j]))) == 1 ==> ret[tppos(j)] == tpid(val(tps[j]))
+//@   ensures lentag: forall j in 0..n: ret[tppos(j) + vlen(tpid(val(tps[j])))] / 64 == tagbits(vlen(tpvlen(val(tps[j]))))
+//@   ensures len1: forall j in 0..n: vlen(tpvlen(val(tps[j]))) == 1 ==> ret[tppos(j) + vlen(tpid(val(tps[j])))] == tpvlen(val(tps[j]))
+//@   ensures value: forall j in 0..n: forall k in 0..tpvlen(val(tps[j])): ret[tppos(j) + tphdr(tps[j]) + k] == tpvbyte(val(tps[j]), k)
+//@   loop 0 invariant -1 <= $rangeindex && $rangeindex < n
+//@   loop 0 invariant len(b) == tppos($k) && (isnil(b) || fresh(b))
+//@   loop 0 invariant forall j in 0..$k: b[tppos(j)] / 64 == tagbits(vlen(tpid(val(tps[j]))))
+//@   loop 0 invariant forall j in 0..$k: vlen(tpid(val(tps[j]))) == 1 ==> b[tppos(j)] == tpid(val(tps[j]))
+//@   loop 0 invariant forall j in 0..$k: b[tppos(j) + vlen(tpid(val(tps[j])))] / 64 == tagbits(vlen(tpvlen(val(tps[j]))))
+//@   loop 0 invariant forall j in 0..$k: vlen(tpvlen(val(tps[j]))) == 1 ==> b[tppos(j) + vlen(tpid(val(tps[j])))] == tpvlen(val(tps[j]))
+//@   loop 0 invariant forall j in 0..$k: forall k in 0..tpvlen(val(tps[j])): b[tppos(j) + tphdr(tps[j]) + k] == tpvbyte(val(tps[j]), k)
+//@   loop 0 invariant forall j in 0..$k: 0 <= tppos(j) && tppos(j+1) <= tppos($k)
